@@ -6,8 +6,10 @@ package launch
 // descriptors the runtime holds while it starts nri, and the lifecycle requests it sends.
 
 import (
+	"encoding/json"
 	"fmt"
 	"sort"
+	"strconv"
 	"strings"
 
 	"pgregory.net/rapid"
@@ -27,13 +29,31 @@ const (
 	bGarbage  = "garbage"  // executable regular file that is no program: fails to start
 )
 
+// Mode is a set of permission bits; in JSON an octal string ("0755").
+type Mode uint32
+
+func (m Mode) MarshalJSON() ([]byte, error) { return []byte(fmt.Sprintf("\"%04o\"", uint32(m))), nil }
+
+func (m *Mode) UnmarshalJSON(b []byte) error {
+	var s string
+	if err := json.Unmarshal(b, &s); err != nil {
+		return err
+	}
+	v, err := strconv.ParseUint(s, 8, 32)
+	if err != nil {
+		return err
+	}
+	*m = Mode(v)
+	return nil
+}
+
 // Plugin is one executable regular file NN-<stem>_<behaviour>[K] in the plugin directory.
 type Plugin struct {
 	Idx     string `json:"idx"`
 	Stem    string `json:"stem"`
 	Behav   string `json:"behav"`
 	K       int    `json:"k,omitempty"`
-	Mode    uint32 `json:"mode"`              // permission bits, at least one execute bit
+	Mode    Mode   `json:"mode"`              // permission bits, at least one execute bit
 	Garbage string `json:"garbage,omitempty"` // content kind of a garbage file: empty, text, elf
 }
 
@@ -79,7 +99,7 @@ func (p Plugin) startsUp() bool {
 type Entry struct {
 	Name    string `json:"name"`
 	Kind    string `json:"kind"`              // file | dir
-	Mode    uint32 `json:"mode"`              // files: no execute bit
+	Mode    Mode   `json:"mode"`              // files: no execute bit
 	Content string `json:"content,omitempty"` // files: text | empty | probe (a copy of the probe binary)
 	Inner   string `json:"inner,omitempty"`   // dirs: name of an executable probe placed inside
 }
@@ -122,8 +142,8 @@ var (
 	idxPool  = []string{"00", "01", "05", "10", "10", "10", "20", "20", "50", "99"}
 	stemPool = []string{"a", "a", "b", "c", "a-b", "b-a", "x.y", "p_q", "conf", "a.conf", "UP", "ok"}
 	// execute bits for owner, group and/or others: nri launches a file that has any of them
-	execModes    = []uint32{0o755, 0o755, 0o755, 0o755, 0o755, 0o700, 0o555, 0o711, 0o750, 0o100, 0o010, 0o001}
-	nonExecModes = []uint32{0o644, 0o644, 0o600, 0o444, 0o640, 0o000}
+	execModes    = []Mode{0o755, 0o755, 0o755, 0o755, 0o755, 0o700, 0o555, 0o711, 0o750, 0o100, 0o010, 0o001}
+	nonExecModes = []Mode{0o644, 0o644, 0o600, 0o444, 0o640, 0o000}
 	// names that do not parse as NN-name: fine for non-executables and directories only
 	malformedNames = []string{"README", "notes.txt", "1-a_ok", "abc-a_ok", "100-a_ok", "-a_ok", "10_a_ok", ".hidden", "a_ok", "1a-b_ok", " 10-a_ok", "plugins.d", "1O-l_ok"}
 )
@@ -212,7 +232,7 @@ func genC18(t *rapid.T) C18Case {
 		}
 		if rapid.IntRange(0, 2).Draw(t, "isdir") == 0 {
 			e.Kind = "dir"
-			e.Mode = rapid.SampledFrom([]uint32{0o755, 0o700, 0o711}).Draw(t, "dmode")
+			e.Mode = rapid.SampledFrom([]Mode{0o755, 0o700, 0o711}).Draw(t, "dmode")
 			if rapid.Bool().Draw(t, "inner") {
 				e.Inner = rapid.SampledFrom(idxPool).Draw(t, "iidx") + "-inner_ok"
 			}
